@@ -65,6 +65,12 @@ func (r *Recorder) creatorIdx(pub string) int {
 func (r *Recorder) add(ev *hg.Event, n *SimNode) *RecEvent {
 	h := ev.Hex()
 	if e, ok := r.Events[h]; ok {
+		if e.Signature != ev.Signature && n.Idx == e.CreatorIdx && n.ReusedIndexStep < 0 {
+			// the node signed again an event (same body, same hash) that it had
+			// already created before it was reset: it re-used one of its indexes
+			n.ReusedIndexStep = r.nw.Step
+			r.nw.Res.count("reset_nodes_that_signed_again_an_event_they_had_created_before", 1)
+		}
 		return e
 	}
 	e := &RecEvent{
@@ -86,6 +92,9 @@ func (r *Recorder) add(ev *hg.Event, n *SimNode) *RecEvent {
 	ci := fmt.Sprintf("%s/%d", e.Creator, e.Index)
 	if other, ok := r.byCI[ci]; ok && other != h {
 		r.Forks = append(r.Forks, fmt.Sprintf("creator %s index %d: %s and %s", e.Creator[:10], e.Index, other[:10], h[:10]))
+		if e.CreatorIdx >= 0 && r.nw.Nodes[e.CreatorIdx].ReusedIndexStep < 0 {
+			r.nw.Nodes[e.CreatorIdx].ReusedIndexStep = r.nw.Step
+		}
 	} else {
 		r.byCI[ci] = h
 	}
